@@ -51,6 +51,7 @@ class St:
         self.hgen_parent = {}      # generation -> (parent generation, alloc bound): agree below the bound
         self.hgen_unknown = False  # an unmodelled effect havocked the whole heap
         self.owner_bound = None    # closures: objects at or above this reference are owned by the enclosing call
+        self.fresh_only = None     # inside a loop declared writes='fresh': (bound, exempt receiver terms)
 
     def fork(self):
         s = St()
@@ -70,6 +71,7 @@ class St:
         s.hgen_parent = self.hgen_parent
         s.hgen_unknown = self.hgen_unknown
         s.owner_bound = self.owner_bound
+        s.fresh_only = self.fresh_only
         return s
 
     def assume(self, c):
@@ -218,7 +220,9 @@ def conforms(v, T):
     if k == 'union':
         return any(conforms(v, t) for t in T[1])
     if k == 'rec':
-        return isinstance(v, VRec) and v.name == T[1]
+        if isinstance(v, VConst) and isinstance(v.py, dict):
+            return True
+        return isinstance(v, VRec) and (v.name == T[1] or T[1] in REG.rec_optional)
     if k in ('pred', 'fn'):
         return isinstance(v, VFn)
     if k == 'enum':
